@@ -417,8 +417,11 @@ impl AliasParser {
 
     fn get_input_term(&mut self) -> Result<Option<AliasItem>, AliasSyntaxError> {
         
-        let s_bound = self.get_syll_bound();
-        if s_bound.is_some() { return Ok(s_bound) }
+        // a syllable boundary can only be matched by a romaniser (grammar: INTO <- REPLACE ARR SEG+)
+        if self.kind == AliasKind::Romaniser {
+            let s_bound = self.get_syll_bound();
+            if s_bound.is_some() { return Ok(s_bound) }
+        }
 
         self.get_segment()
     } 
